@@ -437,6 +437,7 @@ func init() {
 		return ex.newErr(fmt.Sprintf("new#%d", ex.fresh), format)
 	})
 	intrinsics["github.com/pkg/errors.Errorf"] = intrinsics["fmt.Errorf"]
+	intrinsics["golang.org/x/xerrors.Errorf"] = intrinsics["fmt.Errorf"]
 	reg("errors.Join", func(ex *Exec, a []Val) Val {
 		for _, v := range ex.sliceElems(a[0].(SliceV)) {
 			if iv, ok := v.(IfaceV); ok && iv.T != nil {
